@@ -37,10 +37,10 @@ func thinkTimes(rc *RunCtx, scale int) func() time.Duration {
 		case 1:
 			return time.Duration(1+g.Int(8000)) * time.Millisecond
 		}
-		if g.Chance(1, 6) {
-			return time.Duration(1+g.Int(24)) * time.Hour / 4
+		if g.Chance(1, 20) {
+			return time.Duration(1+g.Int(40)) * time.Minute
 		}
-		return time.Duration(1+g.Int(600)) * time.Second
+		return time.Duration(1+g.Int(120)) * time.Second
 	}
 }
 
@@ -89,7 +89,7 @@ func runHistory(rc *RunCtx, cfg DriverCfg, named bool, nOps int, after func(d *D
 			}
 		}
 		// let background workers (GC, outbox, heal) run past their windows, then re-check everything
-		rc.S.Sleep(spec.GCGrace + 2*spec.GCInterval + time.Minute)
+		rc.S.Sleep(spec.GCGrace + 2*spec.GCInterval + 10*time.Second)
 		if v := d.CheckAll(); v != nil {
 			viol = v
 			return
